@@ -192,6 +192,10 @@ pub(super) fn flush_check(file_path: String) {
     {
         let ready_to_delete = fully_allocated && locked == 0 && total > 0 && checkpointed >= total;
         if ready_to_delete {
+            #[cfg(walrus_verif)]
+            if crate::wal::verif_hooks::capture_deletion(&file_path) {
+                return;
+            }
             if let Some(tx) = DELETION_TX.get() {
                 let _ = tx.send(file_path);
             }
